@@ -37,15 +37,27 @@ type bEvent struct {
 	linked int // index of the event this one is linked to (-1: triggered directly)
 }
 
-type bRound struct {
+// spinGate: the spin barrier of one round (shared by all round families of this file and fresh.go)
+type spinGate struct {
 	k        int
 	deadline bool // release at a common clock deadline instead of on the last arrival
 	skew     [barrierMaxK]int
-	evs      []*bEvent
-	direct   []int // events the workers trigger, in this order
-	hooks    []*bHook
 	arrived  atomic.Int32
 	goAt     atomic.Int64 // deadline mode: unix nanos published by the last arriver
+}
+
+type bRound struct {
+	spinGate
+	evs    []*bEvent
+	direct []int // events the workers trigger, in this order
+	hooks  []*bHook
+}
+
+// spinRound: one barrier-released round. run(g) is executed by worker g < k (it starts with the gate), judge by the
+// driver after all workers have finished the round's batch: ("", "") when the round is fine.
+type spinRound interface {
+	run(g int)
+	judge() (kind, why string)
 }
 
 var barrierSink atomic.Int64
@@ -64,7 +76,8 @@ func spinUntil(cond func() bool) {
 	}
 }
 
-func (rd *bRound) run(g int) {
+// wait: worker g passes the gate (arrival, release, its skew)
+func (rd *spinGate) wait(g int) {
 	k := int32(rd.k)
 	if rd.deadline {
 		if rd.arrived.Add(1) == k {
@@ -80,6 +93,31 @@ func (rd *bRound) run(g int) {
 		x += i
 	}
 	barrierSink.Add(int64(x & 1))
+}
+
+// drawGate draws k (0: random 2..4), the release mode and the skews
+func drawGate(r *vx.Rng, gt *spinGate, k int) {
+	if k == 0 {
+		k = 2 + r.Intn(barrierMaxK-1)
+	}
+	gt.k, gt.deadline = k, r.Chance(1, 3)
+	for g := 0; g < k; g++ {
+		if r.Chance(1, 2) {
+			gt.skew[g] = r.Intn(64)
+		}
+	}
+}
+
+func (rd *spinGate) String() string {
+	rel := "arrival"
+	if rd.deadline {
+		rel = "deadline"
+	}
+	return fmt.Sprintf("k=%d release=%s skew=%v", rd.k, rel, rd.skew[:rd.k])
+}
+
+func (rd *bRound) run(g int) {
+	rd.wait(g)
 	for _, e := range rd.direct {
 		rd.evs[e].e.Trigger(g)
 	}
@@ -88,15 +126,8 @@ func (rd *bRound) run(g int) {
 // newBarrierRound draws the shape of one round from r (k = 0: also the number of workers) and builds fresh events and
 // hooks for it.
 func newBarrierRound(r *vx.Rng, k int) (*bRound, string) {
-	if k == 0 {
-		k = 2 + r.Intn(barrierMaxK-1)
-	}
-	rd := &bRound{k: k, deadline: r.Chance(1, 3)}
-	for g := 0; g < rd.k; g++ {
-		if r.Chance(1, 2) {
-			rd.skew[g] = r.Intn(64)
-		}
-	}
+	rd := &bRound{}
+	drawGate(r, &rd.spinGate, k)
 	train := 1 + r.Intn(4)
 	shape := ""
 	small := []uint64{1, 1, 2, 2, 3}
@@ -152,11 +183,7 @@ func newBarrierRound(r *vx.Rng, k int) (*bRound, string) {
 		}
 		shape += ")"
 	}
-	rel := "arrival"
-	if rd.deadline {
-		rel = "deadline"
-	}
-	return rd, fmt.Sprintf("k=%d release=%s skew=%v train=%s", rd.k, rel, rd.skew[:rd.k], shape)
+	return rd, fmt.Sprintf("%s train=%s", rd.spinGate.String(), shape)
 }
 
 func minU(a, b uint64) uint64 {
@@ -166,8 +193,17 @@ func minU(a, b uint64) uint64 {
 	return b
 }
 
-// judge: exact counts (the property's predicate), "" when the round is fine
-func (rd *bRound) judge() string {
+const barrierKind = "simultaneous Trigger calls with WithMaxTriggerCount: wrong number of invocations"
+
+func (rd *bRound) judge() (kind, why string) {
+	if why = rd.judgeCounts(); why != "" {
+		kind = barrierKind
+	}
+	return
+}
+
+// judgeCounts: exact counts (the property's predicate), "" when the round is fine
+func (rd *bRound) judgeCounts() string {
 	k := uint64(rd.k)
 	// triggers reaching an event / accepted by it
 	reach := make([]uint64, len(rd.evs))
@@ -215,18 +251,19 @@ func (rd *bRound) judge() string {
 // batch instead of one per round).
 type bBatch struct {
 	k      int
-	rounds []*bRound
+	rounds []spinRound
 	shapes []string
 	done   atomic.Int32
 }
 
 const barrierBatch = 32
 
-func newBarrierBatch(r *vx.Rng, n int) *bBatch {
+// newRound(k) draws one round for k workers (k = 0: it also draws k) and returns it with its k and its replayable shape
+func newBarrierBatch(n int, newRound func(k int) (spinRound, int, string)) *bBatch {
 	b := &bBatch{}
 	for i := 0; i < n; i++ {
-		rd, shape := newBarrierRound(r, b.k)
-		b.k = rd.k
+		rd, k, shape := newRound(b.k)
+		b.k = k
 		b.rounds = append(b.rounds, rd)
 		b.shapes = append(b.shapes, shape)
 	}
@@ -235,11 +272,21 @@ func newBarrierBatch(r *vx.Rng, n int) *bBatch {
 
 // barrierLimits runs `rounds` rounds (stops early after maxWall); failures go to st.Fail with the round's shape.
 func barrierLimits(r *vx.Rng, st *vx.Stats, rounds int, maxWall time.Duration) {
+	spinDrive(st, "barrier", rounds, maxWall, func(k int) (spinRound, int, string) {
+		rd, shape := newBarrierRound(r, k)
+		return rd, rd.k, shape
+	})
+}
+
+// spinDrive: 4 persistent workers run batches of rounds drawn by newRound; the driver judges every round of a finished
+// batch (the workers are idle then: whatever judge does to the round's objects is quiescent). Counters are filed
+// under tag ("barrier", "fresh").
+func spinDrive(st *vx.Stats, tag string, rounds int, maxWall time.Duration, newRound func(k int) (spinRound, int, string)) {
 	if rounds <= 0 {
 		return
 	}
 	if runtime.GOMAXPROCS(0) < 2 {
-		st.Count("barrier:skipped-single-processor")
+		st.Count(tag + ":skipped-single-processor")
 		return
 	}
 	var cur atomic.Pointer[bBatch]
@@ -286,20 +333,19 @@ func barrierLimits(r *vx.Rng, st *vx.Stats, rounds int, maxWall time.Duration) {
 			if i%64 == 0 {
 				runtime.Gosched()
 				if i%65536 == 0 && time.Since(t0) > 20*time.Second {
-					st.Fail(map[string]any{"sig": "", "kind": "barrier-released concurrent Trigger hung (watchdog)", "round": n, "shapes": b.shapes})
+					st.Fail(map[string]any{"sig": "", "kind": tag + ": barrier-released concurrent operations hung (watchdog)", "round": n, "shapes": b.shapes})
 					return false
 				}
 			}
 		}
 		for i, rd := range b.rounds {
-			st.Count("barrier:rounds")
-			st.Count(fmt.Sprintf("barrier:k=%d", rd.k))
-			if why := rd.judge(); why != "" {
+			st.Count(tag + ":rounds")
+			st.Count(fmt.Sprintf("%s:k=%d", tag, b.k))
+			if kind, why := rd.judge(); why != "" {
 				fails++
-				st.Count("barrier:failed-rounds")
+				st.Count(tag + ":failed-rounds")
 				if fails <= 3 {
-					st.Fail(map[string]any{"sig": "", "kind": "simultaneous Trigger calls with WithMaxTriggerCount: wrong number of invocations",
-						"round": n + i, "shape": b.shapes[i], "why": why})
+					st.Fail(map[string]any{"sig": "", "kind": kind, "round": n + i, "shape": b.shapes[i], "why": why})
 				}
 			}
 		}
@@ -309,7 +355,7 @@ func barrierLimits(r *vx.Rng, st *vx.Stats, rounds int, maxWall time.Duration) {
 	ok := true
 	for left := rounds; left > 0 && ok; {
 		if time.Since(start) > maxWall {
-			st.Count("barrier:stopped-at-wall-limit")
+			st.Count(tag + ":stopped-at-wall-limit")
 			break
 		}
 		sz := barrierBatch
@@ -317,7 +363,7 @@ func barrierLimits(r *vx.Rng, st *vx.Stats, rounds int, maxWall time.Duration) {
 			sz = left
 		}
 		left -= sz
-		next := newBarrierBatch(r, sz) // built while the workers run the previous batch
+		next := newBarrierBatch(sz, newRound) // built while the workers run the previous batch
 		if ok = finish(); ok {
 			running = next
 			cur.Store(next)
@@ -330,5 +376,5 @@ func barrierLimits(r *vx.Rng, st *vx.Stats, rounds int, maxWall time.Duration) {
 	for i := 0; ok && exited.Load() < barrierMaxK && i < 2000; i++ {
 		time.Sleep(time.Millisecond)
 	}
-	st.Extra["barrier_ms"] = time.Since(start).Milliseconds()
+	st.Extra[tag+"_ms"] = time.Since(start).Milliseconds()
 }
